@@ -752,9 +752,17 @@ pub fn run(ctx: &Ctx) -> Report {
             capped = Some(format!("wall cap {wall_cap:?} reached before expanding depth {depth} ({} states pending)", frontier.len()));
             break
         }
-        let res = util::par_map(frontier.len() as u64, threads, |i| expand(&scratch, &frontier[i as usize]));
+        // A level that is still being expanded when the hard cap passes is
+        // cut short: the remaining states of the frontier are not expanded
+        // and the level does not count as completed.
+        let hard_cap = wall_cap * 2;
+        let res = util::par_map(frontier.len() as u64, threads, |i| {
+            if started.elapsed() > hard_cap { return None }
+            Some(expand(&scratch, &frontier[i as usize]))
+        });
+        let skipped = res.iter().filter(|r| r.is_none()).count();
         let mut next = Vec::new();
-        for ex in res {
+        for ex in res.into_iter().flatten() {
             rep.transitions += ex.transitions;
             for (k, v) in ex.outcomes { *rep.outcomes.entry(k).or_insert(0) += v; }
             for (class, msg, hist) in ex.violations {
@@ -763,6 +771,10 @@ pub fn run(ctx: &Ctx) -> Report {
             for s in ex.succ {
                 if seen.insert(canon(&s)) { next.push(s) }
             }
+        }
+        if skipped > 0 {
+            capped = Some(format!("wall cap {hard_cap:?} reached while expanding depth {depth}: {} of {} states of that level expanded, the rest and everything deeper not", frontier.len() - skipped, frontier.len()));
+            break
         }
         depth += 1;
         rep.extra.insert(format!("states_after_depth_{depth}"), json!(seen.len()));
